@@ -89,11 +89,31 @@ def run(pid, tier):
             continue
         for lp in run_.get("lps", []):
             traces.append(lp_trace(run_, lp))
+    # the small synthetic programmes of C02's family are programmes the model builds and solves too: their allocations must
+    # exist physically as well (both round kinds, both stock regimes)
+    from . import optimum
+    nsmall = 0
+    try:
+        sols = optimum.solve_all(optimum.gen_instances(tier, C.seed())) + optimum.solve_all(optimum.gen_animal_instances(tier, C.seed()))
+    except Exception as ex:  # noqa
+        out.machinery.append(str(ex)[-1200:])
+        sols = []
+    for r in sols:
+        if r.get("ok"):
+            t = lp_trace(dict(job=dict(cc="inst%d" % r["inst"]["id"], preset="small")), r["lp"])
+            t["hdr"]["small"] = True
+            traces.append(t)
+            nsmall += 1
+    out.extra["small_instances"] = nsmall
     fails = tracecheck.validate("Trace_Ledger", "Trace_Ledger.cfg", traces, out)
     for (t, l, clause) in fails:
         if clause in C02_CLAUSES:
             continue  # C02 clauses, reported by ./check C02
         h = t["hdr"]
+        if h.get("small"):
+            out.violation("small:" + key_of(t, l, clause), "small instance %s (%s round), event %d" % (h["cc"], "people-maximising" if h["kind"] == "H" else "feed-maximising", l),
+                          dict(hdr=h, event_index=l, clause=clause))
+            continue
         e = t["ev"][l - 1] if l <= len(t["ev"]) else {}
         out.violation(key_of(t, l, clause), "%s %s round %d month %s" % (h["cc"], h["preset"], h["round"], e.get("m", "-")),
                       dict(hdr=h, event_index=l, clause=clause, event=e))
